@@ -258,6 +258,18 @@ def run(ctx):
     res.floor("R10.7", "`highest_index` local in validate_required", len(his), 1)
     ups = [d for l in his for d in vq.def_sites(l) if not (isinstance(d[3], dict) and d[3]["k"] == "use" and op_int(d[3]["op"]) == 0)]
     res.floor("R10.7", "updates of highest_index", len(ups), 2)
+    def guarded_or_identity(l, d, depth=0):
+        """The update is on the !is_last_set edge, or it is a conditional value whose is_last_set branch hands back highest_index unchanged."""
+        if any(re.match(r"^F:is_last_set\(", g) for g in guard_strs(vq, d[0])):
+            return True
+        rv = d[3]
+        if depth < 3 and isinstance(rv, dict) and rv["k"] == "use" and isinstance(rv["op"].get("mv", rv["op"].get("cp")), int):
+            src = rv["op"].get("mv", rv["op"].get("cp"))
+            if src in his:
+                return any(re.match(r"^T:is_last_set\(", g) for g in guard_strs(vq, d[0])) or depth > 0
+            inner = vq.def_sites(src)
+            return bool(inner) and all(guarded_or_identity(src, e, depth + 1) for e in inner)
+        return False
     for d in ups:
-        res.check(any(re.match(r"^F:is_last_set\(", g) for g in guard_strs(vq, d[0])), "R10.7", "highest-index-ignores-last", "%s bb%d" % (vq.where(), d[0]),
+        res.check(guarded_or_identity(None, d), "R10.7", "highest-index-ignores-last", "%s bb%d" % (vq.where(), d[0]),
                   "highest_index updated only for arguments that are not `last`", "highest_index also counts a missing `last` positional: optional positionals before it are reported as missing required arguments although no rule requires them")
